@@ -348,7 +348,7 @@ let run_oracle d0 ops implfile =
             let dom = wf && wft in
             let route_verdicts (r : route) =
               Printf.sprintf "C01=%s C02=%s C06=%s" (v01 (valid_itinerary_b d s p acc egr r))
-                (v01 (limits_ok_b d s p r)) (v01 (totals_ok_b d p r && walk_dists_ok_b d r)) in
+                (v01 (limits_ok_b d s p r)) (v01 (totals_ok_b d p r && walk_dists_ok_b d r && vehicle_dists_ok_b d r)) in
             let status_ok = (match toks with _ :: "ok" :: _ -> true | _ -> false) in
             let status_noroute = (match toks with _ :: "noroute" :: _ -> true | _ -> false) in
             let reason = (match toks with _ :: "noroute" :: r :: _ -> ios r | _ -> -1) in
